@@ -1,5 +1,5 @@
 From Coq Require Import ZArith NArith List Bool.
-From GoCoap Require Import Base.Cases Base.Bytes Retx.Model Retx.ModelMid Retx.Spec.
+From GoCoap Require Import Base.Cases Base.Bytes Retx.Model Retx.ModelMid Retx.ModelStale Retx.Spec.
 Import ListNotations.
 Open Scope Z_scope.
 
@@ -8,7 +8,9 @@ Open Scope Z_scope.
    fresh one when no request has that number) *)
 Inductive hev :=
 | HE (e : ev) (em : list oemit) (ret : list (Z * Z * Z))
-| HM (id : Z) (tok : list Z) (dl : option Z) (mid : Z) (em : list oemit) (ret : list (Z * Z * Z)).
+| HM (id : Z) (tok : list Z) (dl : option Z) (mid : Z) (em : list oemit) (ret : list (Z * Z * Z))
+(* HS: CheckExpirations driven with a timestamp ms before the present (Retx/ModelStale.v) *)
+| HS (ms : Z) (em : list oemit) (ret : list (Z * Z * Z)).
 Inductive case := Hist (ack maxrt nst : Z) (h : list hev).
 
 Definition emit_key (e : emit) : Z := match e with Copy id => 2 * id | BareAck p => 2 * p + 1 end.
@@ -33,24 +35,27 @@ Definition obs_agrees (o : obs) (em : list oemit) (ret : list (Z * Z * Z)) : boo
   list_rel emit_agrees (sort_by emit_key (o_emit o)) (sort_by oemit_key em) &&
   list_rel ret_eqb (sort_by ret_key (o_ret o)) (sort_by ret_key ret).
 
-Definition hev_ev (e : hev) : mev := match e with HE e0 _ _ => Base e0 | HM id tok dl m _ _ => SendM id tok dl m end.
-Definition hev_em (e : hev) : list oemit := match e with HE _ em _ | HM _ _ _ _ em _ => em end.
-Definition hev_ret (e : hev) : list (Z * Z * Z) := match e with HE _ _ r | HM _ _ _ _ _ r => r end.
+Definition hev_evs (e : hev) : list mev :=
+  match e with HE e0 _ _ => [Base e0] | HM id tok dl m _ _ => [SendM id tok dl m] | HS ms _ _ => map Base (stale_tick ms) end.
+Definition hev_em (e : hev) : list oemit := match e with HE _ em _ | HM _ _ _ _ em _ | HS _ em _ => em end.
+Definition hev_ret (e : hev) : list (Z * Z * Z) := match e with HE _ _ r | HM _ _ _ _ _ r | HS _ _ r => r end.
 
 (* the model the implementation is compared with is the message-ID keyed one (Retx/ModelMid.v) *)
 Fixpoint hist_agrees (c : cfg) (s : mst) (h : list hev) : bool :=
   match h with
   | [] => true
-  | he :: r => let '(s1, o) := mstep c s (hev_ev he) in obs_agrees o (hev_em he) (hev_ret he) && hist_agrees c s1 r
+  | he :: r => let '(s1, o) := mrun_obs c s (hev_evs he) in obs_agrees o (hev_em he) (hev_ret he) && hist_agrees c s1 r
   end.
 
 Definition agrees (c : case) : bool :=
   match c with Hist a m n h => hist_agrees {| ack_ms := a; max_rt := m; nstart := n |} minit h end.
 
+(* for the property a tick with a stale stamp is a tick: what counts is what goes on the wire and when *)
 Definition to_oev (e : hev) : oev :=
-  {| k := match hev_ev e with
-          | SendM id _ dl m => KSendM id dl m
-          | Base ev0 =>
+  {| k := match e with
+          | HS _ _ _ => KTick
+          | HM id _ dl m _ _ => KSendM id dl m
+          | HE ev0 _ _ =>
             match ev0 with
             | Send id _ dl => KSend id dl | Age ms => KAge ms | Tick => KTick | Ack id => KAck id | Rst id => KRst id
             | Piggy id c => KPiggy id c | Sep id c _ => KSep id c | Cancel id => KCancel id end
